@@ -30,7 +30,8 @@ ANCHOR_FUNCS = ["naming:_sanitize_user_name", "table:Table._build_column_map", "
 REQUIRED_STRATA = {"recompute": 200, "early-probe": 100, "static": 1500, "history-step": 1000, "repr-dot-row": 200}
 
 DICT = ["a", "b", "A", "Total $", "total", "x y", "x_y", "x  y", "1st", "007", "", None, "sum", "max", "cols", "T", "name", "copy", "schema", "shape", "join", "fillna",
-	"a__1", "col3_", "col__1", "c1x", "col0_", "col1_", "_a", "a_", "__", "é", "Ünï cödé", "class", "a.b", "a-b", "a__b", "sort_by", "dtype", " a ", "a___1", "total _ 1", "rate_(_2)", "a____7", "x_ _2", "b__10_"]
+	"a__1", "col3_", "col__1", "c1x", "col0_", "col1_", "_a", "a_", "__", "é", "Ünï cödé", "class", "a.b", "a-b", "a__b", "sort_by", "dtype", " a ", "a___1", "total _ 1", "rate_(_2)", "a____7", "x_ _2", "b__10_",
+	"ma\u017fs", "mass", "\u017f", "\u0131d", "\u0130x", "id", "\u212a", "stra\u00dfe", "\ufb01n", "\u00aa"]      # letters whose case fold / compatibility form is ASCII: still "other characters"
 
 _BASE = None
 _PUBLIC = None
